@@ -204,4 +204,7 @@ RULES = [
     r_check_is_fresh,
     r_stream_exact,
     lambda ctx: __import__("rules.logic", fromlist=["x"]).r_fol_table(ctx),
+    # an optional constraint binds only when applied: Implies(applied, body) - anything stronger (an equivalence) removes the
+    # schedules that satisfy the body partly while the constraint is not applied (R-APPLIED, shared with C10)
+    lambda ctx: __import__("rules.logic", fromlist=["x"]).r_single_route(ctx),
 ]
